@@ -70,17 +70,19 @@ Inductive compile_outcome :=
 | CErr (errors : list string).     (* the Display rendering of each returned error, in order *)
 
 Inductive create_result := CreateOk | CreateFails (os_error : string).
+(* Write::write_all: write() is repeated until everything is written; a short count is NOT success any
+   more.  It either writes everything or returns the error of the write that failed, after `written`
+   bytes had already reached the file. *)
 Inductive write_result :=
 | WroteAll
-| WroteShort (n : nat)             (* Write::write returned Ok(n): only the first n bytes were written *)
-| WriteFails (os_error : string).
+| WriteFails (written : nat) (os_error : string).
 
 Record child_out := mkChildOut { c_stdout : string; c_stderr : string; c_status : N }.
 
 Record world := mkWorld {
   w_compile : compile_outcome;
   w_create : create_result;        (* result of File::create on the output path *)
-  w_write : write_result;          (* result of the single Write::write call *)
+  w_write : write_result;          (* result of Write::write_all *)
   w_lua_found : bool;              (* Command::new("lua").spawn() succeeds *)
   w_child : string -> child_out;   (* the child as a function of what it reads on stdin *)
   w_usage : string;                (* Args::usage() *)
@@ -145,7 +147,7 @@ Definition run_file (st : strings) (f : flags) (w : world) : effects * run_resul
       | COk bytes => (mkEffects bytes Untouched None, ROk)
       end
   | OFile p =>
-      (* compile into a buffer first, then create + one write *)
+      (* compile into a buffer first, then create + write_all *)
       match w_compile w with
       | CErr es => (no_effects, RErr es)
       | COk bytes =>
@@ -154,8 +156,7 @@ Definition run_file (st : strings) (f : flags) (w : world) : effects * run_resul
           | CreateOk =>
               match w_write w with
               | WroteAll => (mkEffects "" (Holds bytes) None, ROk)
-              | WroteShort n => (mkEffects "" (Holds (substring 0 n bytes)) None, ROk)
-              | WriteFails e => (mkEffects "" (Holds "") None, RErr [s_io_error st ++ e])
+              | WriteFails n e => (mkEffects "" (Holds (substring 0 n bytes)) None, RErr [s_io_error st ++ e])
               end
           end
       end
